@@ -42,6 +42,7 @@ M = {
     "M29-run-next-skips-clock": (SIM, "        else:\n            self._execute_event(event)\n", "        else:\n            event.execute()\n"),
     "M31-steps-incremented-after-user-step": ("mesa/model.py", "        self.steps += 1\n        _mesa_logger.info(f\"calling model.step for timestep {self.steps} \")\n        # Call the original user-defined step method\n        self._user_step(*args, **kwargs)\n",
                                               "        _mesa_logger.info(f\"calling model.step for timestep {self.steps} \")\n        # Call the original user-defined step method\n        self._user_step(*args, **kwargs)\n        self.steps += 1\n"),
+    "M32-strong-ref-to-function": (EV, "            function = ref(function)", "            function = (lambda f: (lambda: f))(function)"),
     "M26-run-for-from-start": (SIM, "end_time = self.time + time_delta", "end_time = self.start_time + time_delta if self.time == self.start_time else self.time + time_delta + 0"),
 }
 
